@@ -212,6 +212,22 @@ fn color_hslf_sextant_selection() {
     }
 }
 
+// @ob props=C16 tier=quick kind=P cfg=core-std-rel timeout=900
+// @fn Color4f<Hsla>::to_rgba ; Color4f<Hsla>::to_hsl ; Color4f<Rgba>::to_hsla
+// @clause the float HSLA/RGBA conversions carry alpha through unchanged (bit for bit) for every in-range colour and every alpha value
+#[cfg(not(verif_skip_color_hslaf_keeps_alpha))]
+#[kani::proof]
+#[kani::unwind(6)]
+fn color_hslaf_keeps_alpha() {
+    let c: [F; 4] = kani::any();
+    kani::assume(c[0] >= 0.0 && c[0] <= 1.0 && c[1] >= 0.0 && c[1] <= 1.0 && c[2] >= 0.0 && c[2] <= 1.0);
+    let out = hsla(c[0], c[1], c[2], c[3]).to_rgba();
+    kani::cover!(c[3] > 0.2 && c[3] < 0.8);
+    assert!(out.a().to_bits() == c[3].to_bits());
+    let back = rgba(c[0], c[1], c[2], c[3]).to_hsla();
+    assert!(back.a().to_bits() == c[3].to_bits());
+}
+
 // Not claimed: the rest of the float HSL<->RGB pair (round trip within 1e-4, the middle channel). Both directions go through
 // `%` / rem_euclid, which CBMC over-approximates (DESIGN.md C16 [U]).
 
